@@ -1929,6 +1929,10 @@ func (k *runner) batchPaths() {
 		}
 		return
 	}
+	if k.c.StopAt > 0 && len(sizes) >= k.c.StopAt {
+		k.failf("%s: the callback returned an error in batch %d, but the call returned %v after %d callbacks", path, k.c.StopAt, res.Error, len(sizes))
+		return
+	}
 	if errors.Is(res.Error, errRunaway) {
 		k.failf("%s delivered more rows than the table holds (%d): batches so far %v, rows so far %s, Find under key order returns %s",
 			path, len(k.c.Rows), sizes, rowsString(concat), rowsString(want))
